@@ -121,6 +121,21 @@ theorem run_exactly_once_on_success_full (choices : List Nat) (s' : Sys α)
     (preKeys s'.log).Nodup ∧ (postKeys s'.log).Nodup :=
   run_exactly_once_on_success h (C01.startOK_of_eq h hG hst) choices s' hrun
 
+/-- **C02, full**: when the call succeeds, the fired keys are exactly the tasks reachable from the requested keys
+along dependencies, each fired once and completed once; tasks that are not reachable are never fired. -/
+theorem executed_iff_reachable_task (choices : List Nat) (s' : Sys α)
+    (hrun : mainLoop cfg P choices (sys0 st0) = .ok (s', .done)) :
+    (∀ k, k ∈ preKeys s'.log ↔ (Reach cfg.g cfg.results k ∧ isTask cfg.g k)) ∧
+    (preKeys s'.log).Nodup ∧ (postKeys s'.log).Nodup ∧ (∀ k, k ∈ postKeys s'.log ↔ k ∈ preKeys s'.log) := by
+  obtain ⟨a, b, c, d⟩ := run_exactly_once_on_success h (C01.startOK_of_eq h hG hst) choices s' hrun
+  refine ⟨fun k => by rw [a k, C01.seen_iff_reachable h hG hst k], c, d, fun k => by rw [a k, b k]⟩
+
+theorem never_run_unreachable (choices : List Nat) (s' : Sys α) (o : Outcome)
+    (hrun : mainLoop cfg P choices (sys0 st0) = .ok (s', o)) (k : Key) (hk : k ∈ preKeys s'.log) :
+    Reach cfg.g cfg.results k ∧ isTask cfg.g k := by
+  obtain ⟨a, b⟩ := never_run_unneeded h (C01.startOK_of_eq h hG hst) choices s' o hrun k hk
+  exact ⟨(C01.seen_iff_reachable h hG hst k).mp a, b⟩
+
 theorem deps_finished_before_start_full (choices : List Nat) (s' : Sys α) (o : Outcome)
     (hrun : mainLoop cfg P choices (sys0 st0) = .ok (s', o))
     (e : Ev × State α) (he : e ∈ s'.log) (k : Key) (hk : e.1 = Ev.pretask k) (d : Key) (hd : d ∈ e.2.depsOf k) :
